@@ -337,6 +337,8 @@ def oracle_check(refl, res, points):
 def wire_of(t):
     """ser.to_wire extended to the Pseudo reflected terms of c02_rec."""
     if isinstance(t, R.Pseudo):
+        if t.kind == "same":
+            return ser.to_wire(t.arg)
         if t.kind == "reduce":
             n = ser.opname(t.op)
             if n not in ser.ASSOC:
@@ -911,7 +913,7 @@ def battery(ctx, chk, n_recipes, n_sp, focus=None):
             if st == "declined" and mode.startswith("reflect>"):
                 chk.add_program(recipe, "lazy>" + mode.split(">")[1])
         ctx.count("programs:sum-product")
-    n_extra = max(1, (n_recipes + n_sp) // 3)
+    n_extra = max(1, (n_recipes + n_sp) // 6)
     # positional-axis bookkeeping (two-Tensor contractions) has a large discrete space of input orders: weight 4
     fams = list(X.FAMILIES) + ["tensordot"] * 3
     for k in range(n_extra):
@@ -925,7 +927,39 @@ def battery(ctx, chk, n_recipes, n_sp, focus=None):
         for mode in modes:
             chk.add_extra(family, subseed, mode)
         ctx.count("programs:extra")
+    # coverage anchors: the same fixed programs in every run (independent of VERIF_SEED), so that "every registered
+    # rule function fires with a non-identity rewrite" is a deterministic, gated fact of the check itself
+    for family in X.FAMILIES:
+        for subseed in range(ANCHORS.get(family, ANCHORS_PER_FAMILY)):
+            for mode in ANCHOR_MODES.get(family, ["eager", "reflect>eager"]):
+                chk.add_extra(family, subseed, mode)
     chk.flush()
+
+
+ANCHORS_PER_FAMILY = 20
+ANCHORS = {"constant": 80, "tensordot": 72, "independent": 64, "getitem": 48}
+ANCHOR_MODES = {
+    "subschain": ["normalize", "reflect>normalize", "eager"],
+    "tensordot": ["eager", "normalize>eager"],
+    "contraction": ["eager", "normalize>eager", "reflect>optimizer", "lazy", "reflect>sequential", "reflect>normalize",
+                    "reflect>lazy"],
+    "integrate": ["eager", "reflect>eager", "normalize>eager", "reflect>normalize"],
+    "gaussian": ["eager", "reflect>eager", "normalize>eager", "reflect>normalize"],
+    "lambda": ["eager", "reflect>eager", "lazy"],
+}
+
+# registered rule functions of exact interpretations that CANNOT fire with a non-identity value-bearing rewrite
+NOT_FIREABLE = {
+    "funsor.optimizer.eager_contract_base": "always returns None (declines to the next interpretation)",
+    "funsor.joint.moment_matching_contract_default": "always returns None",
+    "funsor.joint.moment_matching_contract_joint": "moment matching approximates a Gaussian mixture: not an exact rewrite "
+                                                   "(the property covers exact interpretations; Gaussian families are not run under it)",
+    "funsor.terms.moment_matching_reduce": "returns a value only through Gaussian.moment_matching_reduce (inexact); None for every other argument",
+    "funsor.terms.eager_approximate": "Approximate alpha-mangles approx_vars although they remain inputs of the term: the lazy term's "
+                                      "input is x__BOUND_n where the rule's result (the model) has x; reported, not driven",
+    "funsor.tensor.eager_finitary_generic_tensors": "only stack / cat / einsum FinitaryOps exist and each has a more specific rule; the generic "
+                                                    "rule is reached only with a scalar Number operand to cat/einsum, which numpy rejects",
+}
 
 
 def report(ctx, chk):
@@ -948,6 +982,12 @@ def report(ctx, chk):
         else:
             ent["not_fired"].append(q.rsplit(".", 1)[1])
     ctx.extra["rules_per_module"] = per_module
+    ctx.extra["rules_not_fireable"] = {q: why for q, why in NOT_FIREABLE.items() if q in reg_fns}
+    uncovered = [q for q in reg_fns if not chk.fired_nonid.get(q) and q not in NOT_FIREABLE]
+    ctx.extra["rules_uncovered"] = uncovered
+    if uncovered and getattr(chk, "gate_coverage", True):
+        ctx.infra_errors.append("C02 coverage gap: registered rule function(s) of an exact interpretation never fired with a "
+                                "non-identity rewrite and are not on the reasoned exclusion list: " + ", ".join(uncovered))
     ctx.extra["firings"] = {"lean_decided": chk.lean_checked, "python_oracle_decided": chk.oracle_checked,
                             "funsor_eval_decided": chk.feval_checked,
                             "rule_calls": chk.rec.calls, "declined_calls": chk.rec.declined}
@@ -961,7 +1001,7 @@ def correspond(ctx):
     try:
         chk = Checker(ctx, rec)
         if ctx.tier == "quick":
-            battery(ctx, chk, 800, 550)
+            battery(ctx, chk, 700, 480)
         else:
             battery(ctx, chk, 6000, 4000)
         shared_binder_stream(ctx, rec)
